@@ -39,9 +39,10 @@ FINDING_WHAT = ("member facts that were already closed (old) when a morphism out
 REQUIRED = ["C17_spec_lfp", "C17_inherit_transitive", "C17_inherit_only_along_paths", "C17_spec_closed",
             "C17_inherited_like_asserted", "C17_spec_history_indep", "C17_inherit_spec", "C17_member_closed_b_sound",
             "C17_member_iso_b_sound", "C17_diff_spec", "C17_toposort_valid", "C17_recompute_age_any_order",
-            "C17_recompute_inherit", "C17_partial", "C17_inherit_transitive_partial", "C17_inherit_only_along_paths_partial",
+            "C17_recompute_inherit", "C17_partial", "C17_partial_timely", "C17_closed_partial_timely", "C17_early_timely",
+            "C17_inherit_transitive_partial", "C17_inherit_only_along_paths_partial",
             "C17_closed_partial", "C17_history_indep_partial", "C17_full_refuted", "C17_full_refuted_witness"]
-HEADER = ("Require Import List NArith. Import ListNotations.\nRequire Import Members.Model Members.Run.\nOpen Scope N_scope.\n")
+HEADER = ("From Coq Require Import List BinNat. Import ListNotations.\nRequire Import Members.Model Members.Run.\nOpen Scope N_scope.\n")
 
 
 # ------------------------------------------------------------------------------------------ implementation side
@@ -117,7 +118,7 @@ def coq_run(ctx, name, shards, timeout=1500):
             raise RuntimeError("%d values for %d expressions in %s" % (len(vals), len(exprs), f))
         return [parse_coq_value(v) for v in vals]
     ctx.checker_cmds.append("cd coq/Members && coqc -noglob -Q . Members gen/cases_%s_*.v" % name)
-    with ThreadPoolExecutor(max_workers=8) as ex:
+    with ThreadPoolExecutor(max_workers=16) as ex:
         return list(ex.map(one, range(len(shards))))
 
 
@@ -140,7 +141,7 @@ def show_facts(prog, facts):
 # ------------------------------------------------------------------------------------------ judging
 
 def judge(ctx, results, stats):
-    nshard = 8
+    nshard = 16
     shards = [([], [], []) for _ in range(nshard)]
     load = [0] * nshard
     for res in results:
@@ -180,8 +181,9 @@ def judge_one(ctx, res, run_, v, stats):
     if v == "None":
         stats["outside_fragment_or_fuel"] += 1
         return
-    (_, (faith, early)) = v
+    (_, (faith, (early, timely))) = v
     early = (early == "true")
+    timely = (timely == "true")
     close_at = [i for i, c in enumerate(calls) if c[0] == "close"]
     if any(d[1] for d in dumps):
         ctx.violation(replay, "a dump contains an element that the caller did not create (member predicates create no elements)")
@@ -217,15 +219,18 @@ def judge_one(ctx, res, run_, v, stats):
             stats["agree"] += 1
             if early:
                 stats["agree_early"] += 1
+            if timely:
+                stats["agree_timely"] += 1
             continue
         stats["disagree"] += 1
         late = mg.late_transport(prog, prefix)
         what = "dump %d (after call %d): the implementation lacks {%s}%s compared with the specification model" % (
             i, close_at[i], show_facts(prog, miss_s), (" and shows {%s} in excess" % show_facts(prog, extra_s)) if extra_s else "")
         rp = dict(replay, dump=i, missing=sorted(miss_s), extra=sorted(extra_s), late_transport=late)
-        if early:
-            # the proved part covers this history: a disagreement contradicts C17_partial or the faithful model
-            ctx.violation(rp, "history satisfies early_morphisms (C17_partial applies) but " + what)
+        if early or timely:
+            # the proved part covers this history: a disagreement contradicts C17_partial(_timely) or the faithful model
+            ctx.violation(rp, "history satisfies %s (C17_partial%s applies) but %s" % (
+                "early_morphisms" if early else "timely", "" if early else "_timely", what))
             continue
         if late is not None and not extra_s and not drift:
             stats["known_finding"] += 1
@@ -248,9 +253,10 @@ def run(ctx):
                        "M / Mor(M), flat rules without `!`/equality conclusions; acyclic morphism graphs; dom, cod, constants "
                        "single-valued (no equality is ever forced)",
                        "C17_partial is proved under early_morphisms (no rule concludes dom/cod and every dom/cod tuple precedes "
-                       "the first close), which is stronger than 'every morphism precedes the first close after the facts it "
-                       "transports'; the finer condition is checked on every generated history (a disagreement without "
-                       "late_transport is a violation)",
+                       "the first close) and C17_partial_timely under the finer state-dependent Run.timely (no old member tuple "
+                       "sits in the domain of a morphism at the moment its dom/cod tuple is asserted); the syntactic reading "
+                       "'every morphism precedes the first close after the facts it transports' is checked on every generated "
+                       "history (a disagreement without late_transport is a violation); rules concluding dom/cod are outside both",
                        "the set-level faithful model abstracts the index orders and the order inside morphism_toposort (C18)"]
     ok, _ = ctx.coq_build("Members")
     if ok:
@@ -272,7 +278,7 @@ def run(ctx):
             ncorpus = 0
         else:
             corpus = corpus_cases()
-            cases = [c[:4] for c in corpus] + generated_cases(ctx.seed, 14 if quick else 120, 3 if quick else 6)
+            cases = [c[:4] for c in corpus] + generated_cases(ctx.seed, 10 if quick else 120, 3 if quick else 6)
             ncorpus = len(corpus)
         args = [(k, p, t, h, scratch) for (k, p, t, h) in cases]
         with ProcessPoolExecutor(max_workers=16) as ex:
@@ -288,7 +294,7 @@ def run(ctx):
                 ctx.broken.append("corpus program %s does not compile: %s" % (r["key"], r["status"]))
     ctx.cov["programs"] = status
     ctx.cov["corpus_programs"] = ncorpus
-    stats = {"dumps": 0, "agree": 0, "agree_early": 0, "disagree": 0, "known_finding": 0, "faithful_disagrees": 0,
+    stats = {"dumps": 0, "agree": 0, "agree_early": 0, "agree_timely": 0, "disagree": 0, "known_finding": 0, "faithful_disagrees": 0,
              "faithful_undefined": 0, "outside_fragment_or_fuel": 0}
     t_impl = time.time() - t0
     done = judge(ctx, results, stats)
